@@ -148,6 +148,7 @@ NEAR_MISS_NAMES = ["abc\n", "abc ", " abc", "a b", "abc\r\n", "abc_", "1abc", ""
                    "a\tb", "12:00", "1", "-1", "1.5", "2001-01-01", "-", "x-", "/*a", "a*/",
                    "null", "TRUE", "false", "a,b", "(a)", "{a", "<a>", "'a'", '"a"', "a'b",
                    "mro:orbit\n", "^image\n", "mro\n:orbit", "^", "a:", ":a", "a:b:c",
+                   "A:B:C", "MRO:CTX:LINE_SAMPLES", "^HIRISE:CCD:TABLE", "ns:el:x", "a::b",
                    "16#FF#", "+", "+a", "a&b", "\xa0a", "a\x0b", "é",
                    # names only the permissive loader takes for a date/time
                    "12:00+01", "2001-01-01T12:00:00-05", "12:00-05", "10:30-07:30"]
